@@ -468,6 +468,23 @@ fn report_pair(rep: &mut Report, c: &Case, class: &'static str, detail: String, 
             }
         }
     }
+    if class == "says-not-assignable-but-no-exact-value-is-outside" {
+        // a right-hand intersection every member of which the engine accepts on its own
+        let dm = defs_map(&small.defs);
+        let top = match &small.t.kind {
+            RuntypeKind::Ref(n) => dm.get(n).cloned().unwrap_or(small.t.clone()),
+            _ => small.t.clone(),
+        };
+        if let RuntypeKind::AllOf(ms) = &top.kind
+            && ms.len() >= 2
+            && ms.iter().all(|m| {
+                let mut ctx = SemTypeContext::new();
+                engine_subtype(&small.s, m, &small.defs, &mut ctx, small.t_first) == Eng::Ok(true)
+            })
+        {
+            cause = Some("right-intersection-accepted-member-by-member");
+        }
+    }
     let sig = if class == "panic" { format!("panic|{}", wdetail) } else if let Some(cz) = cause { format!("{}|cause:{}", class, cz) } else { format!("{}|{} <: {}{}", class, tgen::show(&small.s), tgen::show(&small.t), if small.defs.is_empty() { String::new() } else { format!(" where {}", small.defs.iter().map(|d| format!("{}={}", tgen::show(&Runtype::ref_(d.name.clone())), tgen::show(&d.schema))).collect::<Vec<_>>().join(", ")) }) };
     rep.violation(
         &sig,
@@ -602,8 +619,49 @@ fn c05(args: &Args, rep: &mut Report, w: &Watch) {
             let t = g.ty(bt, true);
             (defs, s, t)
         };
-        let mode = rng.below(10);
+        let mode = rng.below(13);
         let (s, t, stream) = match mode {
+            10..=12 => {
+                // covering problems: S is a product of small literal sets (tuple slots or object
+                // properties), T a union of 2-4 "bricks" over sub-sets of the same slots
+                let pools: [Vec<Runtype>; 4] = [
+                    vec![tgen::lit_b(true), tgen::lit_b(false)],
+                    vec![tgen::lit_s("a"), tgen::lit_s("b"), tgen::lit_s("c")],
+                    vec![tgen::lit_n(1), tgen::lit_n(2), Runtype::string()],
+                    vec![Runtype::null(), Runtype::number(), tgen::lit_s("a")],
+                ];
+                let arity = 2 + rng.below(2);
+                let slots: Vec<&Vec<Runtype>> = (0..arity).map(|_| &pools[rng.below(4)]).collect();
+                let as_object = rng.chance(1, 2);
+                let keys = ["a", "b", "c"];
+                let subset = |rng: &mut Rng, pool: &Vec<Runtype>, at_least: usize| -> Runtype {
+                    let mut pick: Vec<Runtype> = pool.iter().filter(|_| rng.chance(1, 2)).cloned().collect();
+                    while pick.len() < at_least {
+                        let x = rng.pick(pool).clone();
+                        if !pick.contains(&x) {
+                            pick.push(x);
+                        }
+                    }
+                    if pick.len() == 1 { pick.pop().unwrap() } else { tgen::raw_any_of(pick) }
+                };
+                let build = |rng: &mut Rng, parts: Vec<Runtype>, optional_ok: bool| -> Runtype {
+                    if as_object {
+                        tgen::obj(parts.into_iter().enumerate().map(|(i, p)| (keys[i], p, optional_ok && rng.chance(1, 5))).collect(), None)
+                    } else {
+                        Runtype::tuple(parts, None)
+                    }
+                };
+                let s_parts: Vec<Runtype> = slots.iter().map(|p| subset(&mut rng, p, 2)).collect();
+                let s_ty = build(&mut rng, s_parts, true);
+                let nbricks = 2 + rng.below(3);
+                let bricks: Vec<Runtype> = (0..nbricks)
+                    .map(|_| {
+                        let parts: Vec<Runtype> = slots.iter().map(|p| subset(&mut rng, p, 1)).collect();
+                        build(&mut rng, parts, true)
+                    })
+                    .collect();
+                (s_ty, tgen::raw_any_of(bricks), if as_object { "cover-objects" } else { "cover-tuples" })
+            }
             0..=3 => (s, t0, if ndefs > 0 { "random-recursive" } else { "random" }),
             4 | 5 => {
                 let e = tgen::one_edit(&mut rng, &s);
